@@ -4,6 +4,8 @@ use crate::script::{Case, Violation};
 use crate::stats::Stats;
 
 pub mod c01;
+pub mod c04;
+pub mod c13;
 
 #[derive(Clone, Copy, PartialEq, Eq, Debug)]
 pub enum Tier {
@@ -26,7 +28,7 @@ pub struct Prop {
 }
 
 pub fn all() -> Vec<Prop> {
-    vec![c01::prop()]
+    vec![c01::prop(), c04::prop(), c13::prop()]
 }
 
 pub fn find(id: &str) -> Option<Prop> {
